@@ -123,7 +123,13 @@ def extract(fdata, table, layouts, enc, blocked, expanded, via_csv):
                                                           no1014blocking=not blocked, expanded=expanded)
                 rows = list(csv.DictReader(io.StringIO(out.getvalue())))
             else:
-                rd = mciipm.IpmParamReader(drv.new_file(fdata), table, encoding=enc, param_config=layouts, blocked=blocked,
+                src = drv.new_file(fdata)
+                if not drv.THREADED and drv.pick(4, 'phdr', len(fdata), table, enc) == 1:
+                    # the extract sits behind a transport header that the caller has already consumed
+                    hdr = drv.HEADERS[drv.pick(3, 'phdr2', len(fdata))]
+                    src = io.BytesIO(hdr + fdata)
+                    src.seek(len(hdr))
+                rd = mciipm.IpmParamReader(src, table, encoding=enc, param_config=layouts, blocked=blocked,
                                            expanded=expanded)
                 rows = [dict(x) for x in rd]
     except BaseException as ex:  # noqa
@@ -180,6 +186,44 @@ def _drive(args):
     return out
 
 
+def _drive_cli(args):
+    """the command as the operator runs it (a process with an exit status): a good extract, an extract without the index
+    trailer, a table without configuration.  Exit status 0 counts as "rows delivered" (whatever the CSV holds), anything
+    else as refused."""
+    import subprocess
+    import sys
+    seed, k, wd = args
+    r = drv.rng(seed, 'c18cli', k)
+    layouts = PKG['mci_parameter_tables']
+    enc, blocked, expanded = ('latin_1', 'cp500')[k % 2], bool(k & 2), bool(k & 1)
+    trailer = k % 3 != 1
+    fdata = make_file(r, layouts, expanded, enc, blocked, trailer, nrows=6)
+    table = 'IP9999T1' if k % 3 == 2 else list(layouts)[k % len(layouts)]
+    path = os.path.join(wd, 'c18cli-%d-%d.bin' % (os.getpid(), k))
+    drv.spit(path, fdata)
+    cmd = [sys.executable, '-B', '-c', 'import sys; from cardutil.cli.mci_ipm_param_to_csv import cli_entry; sys.exit(cli_entry())',
+           path, table, '-o', path + '.csv', '--in-encoding', enc] + ([] if blocked else ['--no1014blocking']) + (['--expanded'] if expanded else [])
+    env = dict(os.environ, PYTHONPATH=core.REPO)
+    env.pop('CARDUTIL_CONFIG', None)
+    p = subprocess.run(cmd, stdout=subprocess.PIPE, stderr=subprocess.PIPE, env=env, timeout=120)
+    rows, kind, raw = [], 'liberr', {'exit_status': p.returncode, 'stderr_tail': p.stderr.decode(errors='replace')[-300:]}
+    if p.returncode == 0:
+        kind = 'rows'
+        try:
+            rows = [[{'name': kk, 'text': [ord(c) for c in (v or '')]} for kk, v in row.items()]
+                    for row in csv.DictReader(io.StringIO(drv.slurp(path + '.csv', 'r')))]
+        except Exception as ex:  # noqa
+            raw['csv'] = repr(ex)
+    for q in (path, path + '.csv'):
+        if os.path.exists(q):
+            os.unlink(q)
+    return [{'tid': 0, 'op': 'extract', 'blk': blocked, 'blkout': False, 'file': list(fdata), 'table': [ord(c) for c in table],
+             'expanded': expanded, 'kind': kind, 'rows': rows, 'out': [], '_enc': enc, '_layouts': layouts,
+             '_desc': 'mci_ipm_param_to_csv as a process: table %s from a %s %s %s file%s -> exit status %d' % (
+                 table, enc, '1014' if blocked else 'vbs', 'expanded' if expanded else 'compressed', '' if trailer else ' WITHOUT trailer', p.returncode),
+             '_raw': raw, '_nrows': len(rows)}]
+
+
 def validate(rep, wd, traces, prefix):
     """one TLC batch per (encoding, layouts)"""
     from concurrent.futures import ThreadPoolExecutor
@@ -230,6 +274,7 @@ def run(rep, wd, tier, seed):
     outs = _pool(_drive, [(seed, p[0], p[-1] + 1) for p in parts])
     from . import isocheck
     outs += isocheck.mark_threaded(isocheck.threaded('harness.c18', '_drive', [(seed, 1000 + 3 * k, 1000 + 3 * k + 3) for k in range(8)], procs=2))
+    outs += _pool(_drive_cli, [(seed, k, wd) for k in range(12 if tier == 'thorough' else 6)])
     traces = [t for o in outs for t in o]
     kinds = {}
     for t in traces:
